@@ -80,10 +80,12 @@ Theorem callee_frame_is_fresh : forall cm funs clos n f vs g,
   match find_fun funs f with
   | None => Some (EX (err "undefined function"), g)
   | Some d =>
-      match iexec cm funs clos n f (fbody d) (bind_params (fparams d) vs [], []) g with
-      | Fuel => None
-      | Res c _ g' => Some (call_result c, g')
-      end
+      if enough_args (fparams d) vs then
+        match iexec cm funs clos n f (fbody d) (bind_params (fparams d) vs [], []) g with
+        | Fuel => None
+        | Res c _ g' => Some (call_result c, g')
+        end
+      else Some (EX (VErr "too few arguments"), g)
   end.
 Proof. exact (fun _ _ _ _ _ _ _ => eq_refl). Qed.
 Print Assumptions callee_frame_is_fresh.
@@ -95,10 +97,12 @@ Theorem closure_frame_is_fresh : forall cm funs clos n id oid cap vs g,
   match nth_error clos id with
   | None => Some (EX (VErr "no such closure"), g)
   | Some cd =>
-      match iexec cm funs clos n (clo_name oid) (cbody cd) (bind_captured cap (bind_params (cparams cd) vs []), []) g with
-      | Fuel => None
-      | Res c _ g' => Some (call_result c, g')
-      end
+      if enough_args (cparams cd) vs then
+        match iexec cm funs clos n (clo_name oid) (cbody cd) (bind_captured cap (bind_params (cparams cd) vs []), []) g with
+        | Fuel => None
+        | Res c _ g' => Some (call_result c, g')
+        end
+      else Some (EX (VErr "too few arguments"), g)
   end.
 Proof. exact (fun _ _ _ _ _ _ _ _ _ => eq_refl). Qed.
 Print Assumptions closure_frame_is_fresh.
@@ -140,10 +144,12 @@ Theorem callee_vector_is_fresh : forall cm funs clos n f avs g,
   match find_fun funs f with
   | None => Some (EX (err "undefined function"), g)
   | Some d =>
-      match sexec cm funs clos n (fun_vars d) f (fbody d) (sbind_params (fun_vars d) (fparams d) avs (sfresh (fun_vars d)), []) g with
-      | Fuel => None
-      | Res c _ g' => Some (call_result c, g')
-      end
+      if enough_args (fparams d) avs then
+        match sexec cm funs clos n (fun_vars d) f (fbody d) (sbind_params (fun_vars d) (fparams d) avs (sfresh (fun_vars d)), []) g with
+        | Fuel => None
+        | Res c _ g' => Some (call_result c, g')
+        end
+      else Some (EX (VErr "too few arguments"), g)
   end.
 Proof. exact (fun _ _ _ _ _ _ _ => eq_refl). Qed.
 Print Assumptions callee_vector_is_fresh.
